@@ -97,6 +97,44 @@ theorem c02_op_numbering (cfg : Cfg) (hc : cfg.deleteCascadesOps = true) (h : Li
       (opsOf st w).map (·.num) = List.range' 1 (opsOf st w).length :=
   run_opsNumbered cfg hc DB.empty h (by intro st hst; cases hst)
 
+/-- NEVER REFUSED: after every history of calls, a SuggestTrials call for which the documented error table promises
+    no error (the study exists and accepts writes) is answered with a finished OPERATION of the asking worker -
+    whatever the algorithm does (raise, deliver 0 … N+k suggestions, return metadata that cannot be stored), whatever
+    the worker's number of earlier operations (1, 9, 10, 11, …): never with an error status.  Together with
+    `c01_error_table` the error table is exact for SuggestTrials. -/
+theorem c02_suggest_never_refused (cfg : Cfg) (hc : cfg.shortDeliveryOk = true) (hc2 : cfg.suggestCatchesAll = true)
+    (hc3 : cfg.deleteCascadesOps = true) (h : List Req) (o s client : String) (count : Nat) (alg : AlgOutcome)
+    (hs : specError (run cfg DB.empty h) (.suggest o s client count alg) = none) :
+    ∃ op, (step cfg (run cfg DB.empty h) (.suggest o s client count alg)).1.opOf = some op ∧
+      op.done = true ∧ op.client = client := by
+  have hpf := run_pendingFree cfg hc hc2 hc3 DB.empty h (by intro st hst; cases hst)
+  simp only [specError] at hs
+  cases hf : findStudy (run cfg DB.empty h) o s with
+  | none => simp [hf] at hs
+  | some st =>
+    have himm : st.immutable = false := by
+      cases hi : st.immutable with
+      | false => rfl
+      | true => simp [hf, hi] at hs
+    have hmem : st ∈ (run cfg DB.empty h).studies := by
+      unfold findStudy at hf
+      exact List.mem_of_find?_eq_some hf
+    obtain ⟨op, h1, h2, h3, _⟩ := suggestBody_fresh_done cfg hc hc2 st client count alg (hpf st hmem)
+    refine ⟨op, ?_, h2, h3⟩
+    simp only [step, onStudy, hf, himm, Bool.and_false, Bool.false_eq_true, if_false]
+    exact h1
+
+/-- non-vacuity of `c02_suggest_never_refused`: the tenth and eleventh operation of one worker, and a failing
+    algorithm, are answered with finished operations numbered 10 and 11 -/
+example :
+    let hist : List Req := .createStudy "o" "s" false .active 0 [] ::
+      (List.range 9).map fun i => Req.suggest "o" "s" "w" 1 (.suggestions [⟨i, []⟩] [])
+    let db := run Cfg.fixed DB.empty hist
+    let r10 := step Cfg.fixed db (.suggest "o" "s" "w" 12 .raisesOther)    -- needs 3 new trials: the algorithm is reached and raises
+    let r11 := step Cfg.fixed r10.2 (.suggest "o" "s" "w" 10 (.suggestions [⟨100, []⟩] []))
+    (r10.1.opOf.map fun op => (op.num, op.done)) = some (10, true) ∧
+    (r11.1.opOf.map fun op => (op.num, op.done)) = some (11, true) := by decide +kernel
+
 /-! non-vacuity: an over-delivering algorithm, two workers -/
 example :
     let db := run Cfg.fixed DB.empty
